@@ -250,6 +250,15 @@ def text_pool(rng, big):
                 if kind >= 2:
                     out.append(cps(t.upper()))
                     out.append(cps(t[:8] + t[8:].upper()))          # mixed case
+                    # non-ASCII characters whose case folding lands in the charset (KELVIN SIGN -> k,
+                    # LONG S -> S): never part of an address, in either case form
+                    for base in (t, t.upper()):
+                        for i, ch in enumerate(base):
+                            if ch in 'kK' or ch in 'sS':
+                                c = cps(base)
+                                c[i] = 0x212a if ch in 'kK' else 0x17f
+                                out.append(c)
+                                break
             out.append(cps(text(q, kind, bytes(plen(kind)))))
     hrps = ['bc', 'tb', 'bcrt']
     # witness versions 1..16 (BIP173 checksum), program lengths 2..40; version 0 with other lengths
